@@ -12,6 +12,9 @@ use serde_json::json;
 pub struct Mon {
     pre_ref: Option<PosRef>,
     interesting: u64,
+    /// harness model of each position's funding checkpoint: the cumulative fraction at the owner's last charged
+    /// operation (open / trade / partial close / withdraw), independent of the stored checkpoint
+    l_model: std::collections::BTreeMap<(usize, usize), S>,
 }
 
 impl Monitor for Mon {
@@ -30,6 +33,17 @@ impl Monitor for Mon {
             match s.effect {
                 Effect::Closed => {
                     let realised = pnl(pr.long, q, pr.notional);
+                    // funding owed according to the history (model checkpoint), not according to the stored checkpoint
+                    let f_model = self
+                        .l_model
+                        .get(&(*v, *t))
+                        .map(|l| crate::refmath::funding_owed(s.pre.v[*v].cpf, *l, pr.signed_size(), d))
+                        .unwrap_or(pr.funding);
+                    if f_model != pr.funding {
+                        out.count("stored_checkpoint_differs_from_history");
+                    }
+                    let mut pr = pr.clone();
+                    pr.funding = f_model;
                     let equity = pr.equity(&realised);
                     let paid = flow(&s.res.xfers, Some(w.engine.as_str()), trader);
                     out.count("whole_close_checks");
@@ -116,6 +130,27 @@ impl Monitor for Mon {
                 );
             }
         }
+        // model checkpoint bookkeeping (C11's statement: charged at owner trades, withdrawals, closes, full liquidation)
+        if s.res.ok {
+            if let Some((v, t)) = s.act.subject() {
+                let exists = s.post.pos[v][t].as_ref().map(|p| !p.size.is_zero()).unwrap_or(false);
+                match s.act {
+                    Act::Open { .. } | Act::Close { .. } | Act::Withdraw { .. } => {
+                        if exists {
+                            self.l_model.insert((v, t), s.pre.v[v].cpf);
+                        } else {
+                            self.l_model.remove(&(v, t));
+                        }
+                    }
+                    Act::Liquidate { .. } => {
+                        if !exists {
+                            self.l_model.remove(&(v, t));
+                        }
+                    }
+                    _ => {}
+                }
+            }
+        }
         let _ = d;
         None
     }
@@ -143,7 +178,7 @@ pub fn prop() -> HistProp {
         max_ops: (40, 100),
         cases: (12_000, 400_000),
         make: || Box::new(Mon::default()),
-        rule: "engine histories ending in many closes: longs and shorts, price moved by other traders and whale trades, funding settlements of both signs (oracle above/below the vAMM TWAP), fees, deposits/withdrawals, large and nearly empty insurance fund / vault. For each successful whole ClosePosition: Q = |delta quote reserve|, PnL = Q - N (long) / N - Q (short), F = trunc((Phi - L)*S/D); the engine->trader transfers of the transaction must sum to exactly M + PnL - F, which must be >= 0, and the position must be gone. A successful partial close must not leave M + trunc(uPnL*closed/|S|) - F negative. For every successful Open/Close/Deposit/Withdraw the insurance fund's balance falls by no more than the rise of State.bad_debt. Non-trivial: a whole close with PnL != 0 and F != 0, or a close rejected for bad debt, or a trader action with a vault shortfall covered by the fund. Distinct by digest of (cfg, ops).",
+        rule: "engine histories ending in many closes: longs and shorts, price moved by other traders and whale trades, funding settlements of both signs (oracle above/below the vAMM TWAP), fees, deposits/withdrawals, large and nearly empty insurance fund / vault. For each successful whole ClosePosition: Q = |delta quote reserve|, PnL = Q - N (long) / N - Q (short), F = trunc((Phi - L)*S/D) with L the cumulative fraction at the owner's last charged operation as tracked by the harness (so a stale stored checkpoint is noticed); the engine->trader transfers of the transaction must sum to exactly M + PnL - F, which must be >= 0, and the position must be gone. A successful partial close must not leave M + trunc(uPnL*closed/|S|) - F negative. For every successful Open/Close/Deposit/Withdraw the insurance fund's balance falls by no more than the rise of State.bad_debt. Non-trivial: a whole close with PnL != 0 and F != 0, or a close rejected for bad debt, or a trader action with a vault shortfall covered by the fund. Distinct by digest of (cfg, ops).",
         assumptions: &["payout is read from the dispatched engine->trader transfers (fees travel separately)"],
         eval_counter: None,
     }
